@@ -1053,6 +1053,11 @@ def run(ck: Check):
                 for n in range(2, 16):
                     for kind in ALL_KINDS:
                         run_case(R, rng, kind, n, deep=False)
+        # how the object under test is reached: construction routes, dtype regimes, grad modes, immutability, second
+        # instance / deepcopy, batch size equal to another dimension, special values, failure paths
+        import c08_routes
+
+        c08_routes.run(R, rng, ck)
         shrink_search(R, rng)
     finally:
         if drv:
